@@ -6,8 +6,9 @@ import warnings
 
 os.environ.setdefault("MPLBACKEND", "Agg")
 warnings.filterwarnings("ignore")
-if "/repo" not in sys.path:
-    sys.path.insert(0, "/repo")
+REPO = os.environ.get("PV_REPO", "/repo")       # the tree under test (default: /repo's working tree)
+if REPO not in sys.path:
+    sys.path.insert(0, REPO)
 
 
 def main():
